@@ -10,7 +10,9 @@ A  TLC: (1) the _match state machine on every small sane tree x name x carried c
 B  spec -> code: TLC enumerates the small-schema family with Match for every name, and the small sane
    trees with the walk result for every name; the harness renders / builds them, runs the real
    compile_lvs + Checker.match (directly and after save/load) and compares.
-C  code -> spec: seeded generator of well-formed schemas; real results for all names up to length L over
+C  code -> spec: seeded generator of well-formed schemas (lvskit.Gen; among its shapes: constraints of a rule on a
+   named pattern that only a rule referring to it contains, inherited through the reference; a definition written
+   like one chain of another rule); real results for all names up to length L over
    an alphabet with every literal + fresh components; TLC judges the three-way equality
    Lvs!Match = LvsTree!TreeMatch(compiled model) = recorded (direct and reloaded).
 Histories (B and C): the checkers are long-lived objects.  Before the enumerations that are compared, the same
@@ -554,6 +556,10 @@ def stage_c(ctx, procs):
         ctx.sample({'kind': 'C-schema', 'text': text, 'alphabet': rec['alpha'], 'names': len(names)}, limit=3)
     ctx.note('C: %d generated schemas compiled (%d more rejected by compile_lvs/Checker, judged by C13), '
              '%d names each up to length %d' % (len(recs), rejected, len(recs[0]['names']) if recs else 0, L))
+    ctx.note('C: generator shapes: %d schemas with a constraint inherited onto a pattern that only the referring rule has, '
+             '%d with a definition written like one chain of another rule' % (gen.stat['foreign'], gen.stat['flat']))
+    if len(recs) >= 50 and not (gen.stat['foreign'] and gen.stat['flat']):
+        raise tlc.MachineryError('C: generator dimension vacuous: %s' % gen.stat)
     ctx.note('C: histories on the long-lived checkers: %(enum)d more enumerations (%(cut)d cut short before their end, '
              '%(fault)d aborted by a raising user function, %(nested)d suspended while others ran, %(again)d of a name whose '
              'earlier enumeration on that object was incomplete); %(cks)d checkers constructed meanwhile with other '
